@@ -474,3 +474,13 @@ func (i *interpreter) noteWatch(p *value, v value) {
 		}
 	}
 }
+
+// reflect: only opaque type tokens (tables of reflect.Type built in package inits)
+type rtypeBox struct{ t types.Type }
+
+func init() {
+	externals["reflect.TypeOf"] = func(fr *frame, a []value) value {
+		it, _ := a[0].(iface)
+		return iface{t: types.Typ[types.UnsafePointer], v: rtypeBox{it.t}}
+	}
+}
